@@ -178,6 +178,44 @@ void run_stored(vf::Ctx& c, Setup const& s, Probe proto, char const* name, std::
     c.label("stored-generator");
 }
 
+// a scripted engine whose canonical numbers include exact zeros and the largest value below one: the amount of output
+// consumed per call must not depend on the VALUES the generator produces either
+void run_scripted(vf::Ctx& c, Setup const& s, Probe proto, std::uint64_t stream)
+{
+    using E = vf::script_engine;
+    std::size_t const numbers = s.dims + (s.integrator == 2 ? 1 : 0);
+    std::size_t const k = vf::draws_per_canonical<T, E>();
+    std::size_t const predicted = hep::random_number_usage<T, E>();
+    VF_CHECK(c, predicted == k, "C10:predictor", "scripted 64-bit engine: predictor " << predicted << ", measured " << k);
+    std::vector<std::uint64_t> script;
+    for (std::size_t i = 0; i != s.calls * numbers; ++i)
+    {
+        switch (vf::mix2(stream, i) % 6)
+        {
+        case 0: vf::push_canonical<T>(script, 0.0L); break;                                                   // exactly zero
+        case 1: vf::push_canonical<T>(script, static_cast<long double>(std::nextafter(T(1), T(0)))); break;   // largest below one
+        case 2: for (std::size_t j = 0; j != k; ++j) { script.push_back(~0ull); } break;                       // would round to one
+        default: vf::push_canonical<T>(script, static_cast<long double>(vf::stream_unit(stream, i + 99))); break;
+        }
+    }
+    E eng(script);
+    Probe pr = proto;
+    E const* peng = &eng;
+    pr.count = [peng]() { return peng->position(); };
+    iterate(s, Fn{&pr}, eng);
+    VF_CHECK(c, pr.at_call.size() == s.calls, "C10:calls", "scripted engine: integrand called " << pr.at_call.size() << " times for " << s.calls);
+    for (std::size_t i = 0; i != pr.at_call.size(); ++i)
+    {
+        VF_CHECK(c, pr.at_call[i] == (i + 1) * numbers * k, "C10:per-call-consumption", "scripted engine with zeros: at call " << i << " the generator had produced "
+            << pr.at_call[i] << " raw numbers, expected " << (i + 1) * numbers * k);
+    }
+    VF_CHECK(c, eng.position() == s.calls * numbers * k, "C10:total-consumption", "scripted engine with zeros: iteration consumed " << eng.position() << " raw numbers, expected "
+        << s.calls * numbers * k);
+    c.sub += s.calls;
+    c.label("engine:scripted-with-zeros");
+    if (k >= 2) { c.label("multi-draw"); }
+}
+
 void run(vf::Ctx& c)
 {
     vf::Tape& t = c.t;
@@ -205,7 +243,7 @@ void run(vf::Ctx& c)
         s.weights = vf::gen_weights<T>(t, channels);
         s.weights.resize(channels, T(1));
     }
-    std::size_t const which = t.pick(25);
+    std::size_t const which = t.pick(27);
     c.desc << vf::type_name<T>::get() << (s.integrator == 0 ? " PLAIN" : s.integrator == 1 ? " VEGAS" : " MULTI") << " d=" << s.dims << " calls=" << s.calls
            << " pattern=" << pr.pattern << (pr.use_projector ? " projector" : "") << (pr.ask_weight ? " asks-weight" : "") << (s.with_dist ? " +dist" : "")
            << " seed=" << seed << " engine#" << which;
@@ -237,12 +275,14 @@ void run(vf::Ctx& c)
     case 21: run_engine<std::independent_bits_engine<std::mt19937, 7, unsigned>>(c, s, pr, "independent_bits<7>", seed); break;
     case 22: run_engine<std::independent_bits_engine<std::mt19937, 14, unsigned>>(c, s, pr, "independent_bits<14>", seed); break;
     case 23: run_engine<std::independent_bits_engine<std::mt19937, 23, unsigned>>(c, s, pr, "independent_bits<23>", seed); break;
-    default: run_engine<vf::range_engine<5, 1004>>(c, s, pr, "range [5,1004]", seed); break;
+    case 24: run_engine<vf::range_engine<5, 1004>>(c, s, pr, "range [5,1004]", seed); break;
+    default: run_scripted(c, s, pr, t.stream_seed()); break;
     }
     if (pr.pattern == 1 || pr.pattern == 2 || pr.pattern == 3 || pr.pattern == 4) { c.label("zero-or-non-finite-values"); }
     c.label(s.integrator == 0 ? "PLAIN" : s.integrator == 1 ? "VEGAS" : "MULTI");
     bool multi_draw = false;
     for (auto const& l : c.labels) { if (l == "multi-draw") { multi_draw = true; } }
+    if (which >= 25) { multi_draw = true; } // exact zeros among the canonical numbers make the case non-trivial
     c.nontrivial = s.calls >= 2 && (multi_draw || pr.pattern == 3 || pr.pattern == 4 || pr.pattern == 1 || pr.pattern == 2);
 }
 
